@@ -14,7 +14,7 @@ class Gen:
         self.in_fn = 0
         self.in_loop = 0
         self.ncb = 0                  # number of callback call sites emitted (upper bound on invocations is dynamic)
-        self.feat = dict(tryc=True, fns=True, lambdas=True, cbs=True, errors=True, refs=True, vecs=False, globals=False, strs=False, trybias=False, optbias=False)
+        self.feat = dict(tryc=True, fns=True, lambdas=True, cbs=True, errors=True, refs=True, vecs=False, globals=False, strs=False, trybias=False, optbias=False, evals=False)
         if feat:
             self.feat.update(feat)
         self.hist = {}
@@ -102,6 +102,8 @@ class Gen:
             k = r.choice([0, 1, 2, 3, 4])
         elif self.feat["optbias"] and r.chance(1, 3):
             return self.opt_stmt(depth)
+        elif self.feat["evals"] and depth == 0 and not self.in_fn and r.chance(1, 3):
+            return self.hint_scenario()
         if k == 0 or (k < 3 and not ints):
             n = self.fresh()
             if r.chance(1, 4):
@@ -267,6 +269,55 @@ class Gen:
             return "(block (decl %s (int 0)) (while (bin < (pre inc (id %s)) (int %d)) (block (print (id %s)))))" % (c, c, r.range(1, 3), c)
         self.note("opt-const-expr")
         return "(print %s)" % (self.const_int() if r.chance(1, 2) else self.const_bool())
+
+    def hint_scenario(self):
+        """one piece of code evaluated several times under different arrangements of local variables: a declaration made by
+        eval() inside a function or loop (invisible to the parser), read through a name that may also be an outer local or a function"""
+        r = self.rng
+        self.note("hint-scenario")
+        fs = list(self.funs)
+        name = self.fresh() if (not fs or r.chance(1, 2)) else r.choice(fs)         # a fresh variable, or the name of a function
+        read = "(try (block (print (id %s))) (catch %s (block (print (int -1)))))" % (name, self.fresh())
+        val = r.choice([100, 7, 42])
+        form = r.below(6)
+        if form >= 4:
+            # a declaration made by eval() in front of ordinary declarations: the slots of the later variables shift between calls
+            self.note("hint-slot-shift")
+            f = "f%d" % self.next_fn
+            self.next_fn += 1
+            b, a1, a2 = self.fresh(), self.fresh(), self.fresh()
+            self.funs[f] = 1
+            body = ("(block (if (bin == (id %s) (int 1)) (block (evalstr (decl %s (int %d))))) (decl %s (int 1)) (decl %s (bin + (id %s) (int 1))) "
+                    "(print (id %s)) (print (id %s)) (bin + (id %s) (id %s)))" % (b, name if not name.startswith("f") else self.fresh(), val, a1, a2, a1, a1, a2, a1, a2))
+            calls = " ".join("(print (call (fid %s) (int %d)))" % (f, r.choice([0, 1, 1, 2])) for _ in range(r.range(2, 4)))
+            return "(block (noop)) (def %s (%s) %s) %s" % (f, b, body, calls)
+        if form == 3:
+            # a loop whose body is evaluated before and after the declaration appears in the loop's scope
+            self.note("hint-loop")
+            k = self.fresh()
+            when = r.range(1, 2)
+            body = ["(pre inc (id %s))" % k, read, "(if (bin == (id %s) (int %d)) (block (evalstr (decl %s (int %d)))))" % (k, when, name, val)]
+            if r.chance(1, 2):
+                body[1], body[2] = body[2], body[1]
+            return "(block (decl %s (int 0)) (while (bin < (id %s) (int 3)) (block %s)))" % (k, k, " ".join(body))
+        f = "f%d" % self.next_fn
+        self.next_fn += 1
+        b = self.fresh()
+        cond = "(if (bin == (id %s) (int 1)) (block (evalstr (decl %s (int %d)))))" % (b, name, val)
+        if form == 0:
+            body = "(block %s %s (int 0))" % (cond, read)
+        elif form == 1:
+            # an outer local of the same name, the read sits in an inner scope that the declaration lands in
+            self.note("hint-shadow")
+            z = self.fresh()
+            body = "(block (decl %s (int 1)) (block (decl %s (int 0)) %s %s) (int 0))" % (name, z, cond, read)
+        else:
+            # recursion: the same body at different depths, declaration only at some
+            self.note("hint-recursion")
+            body = "(block %s %s (if (bin > (id %s) (int 0)) (block (call (fid %s) (bin - (id %s) (int 1))))) %s (int 0))" % (cond, read, b, f, b, read)
+        self.funs[f] = 1
+        calls = " ".join("(call (fid %s) (int %d))" % (f, r.choice([0, 1, 1, 2])) for _ in range(r.range(2, 4)))
+        return "(block (noop)) (def %s (%s) %s) %s" % (f, b, body, calls)
 
     def thrown_expr(self):
         r = self.rng
